@@ -26,7 +26,13 @@ RULE = ("Hypothesis: messy fields (vlib/fields.py: 0..60 sky-defined sources of 
         "multi-component island; distinct = distinct case.")
 ASSUMPTIONS = [
     "rows of the two catalogues are matched by sky position",
-    "the optimiser follows a mirrored but not bit-identical path for the negated image, hence the relative tolerances",
+    "rows of singular fits (non-positive / non-finite position or flux errors, or a flux error larger than the flux; e.g. a "
+    "1-D island of 3 pixels beside a blank block) are compared on sign and flags only, ignoring the FITERR bit, because the "
+    "end point of the optimiser is arbitrary there",
+    "white noise is paired with docov=False and model-covariance noise with docov=True (as in C01)",
+    "known finding K2 (islands with pixels of both signs are treated as positive islands) is excluded by construction",
+    "the optimiser follows a mirrored but not bit-identical path for the negated image: parameters are compared to 0.3 reported "
+    "sigma, reported errors to 25 %, counts/flags/signs exactly",
 ]
 
 case_strategy = st.fixed_dictionaries({
@@ -87,6 +93,10 @@ def mixed_sign_islands(img, flood):
 
 def check_case(c):
     res = Res()
+    if c["field"]["noise"] == "white":
+        c = dict(c, docov=False)
+    elif c["field"]["noise"] == "correlated":
+        c = dict(c, docov=True)
     F = fields.build_field(c["field"])
     img, hdr, shape = F["img"], F["hdr"], F["shape"]
     # known finding K2: an island with pixels of both signs is always treated as a positive island, so its negative part
@@ -142,16 +152,32 @@ def check_case(c):
             if type(x) is not type(y):
                 res.bad("mirror-rows", "%s: row types differ after sorting by position" % what, **tags)
                 break
-            # The optimiser follows a mirrored but not bit-identical path, and stops when chi^2 changes by ~1e-8: the two
-            # solutions agree to a small fraction of the reported 1-sigma errors, not to machine precision.  Tolerance:
-            # 1 % of the reported error of each parameter (plus a 1e-6 relative floor); errors themselves to 1e-3.
+            # The optimiser follows a mirrored but not bit-identical path and stops when chi^2 changes by ~1e-8; along the
+            # flat directions of blended or faint fits the two end points differ by up to ~0.15 reported sigma (measured).
+            # Tolerance: 0.3 reported sigma per parameter (plus a 1e-6 relative floor); the errors themselves to 25 %.
+            # A sign-handling error shifts parameters by >= 1 sigma or changes counts/flags.
             def tol(err, scale):
                 e = float(err) if err is not None and np.isfinite(err) and err > 0 else 0.0
-                return 0.01 * e + 1e-6 * abs(scale) + 1e-12
+                return 0.3 * e + 1e-6 * abs(scale) + 1e-12
+            if isinstance(x, ComponentSource):
+                def good(e):
+                    return e is not None and np.isfinite(e) and e > 0
+                degenerate = not all(good(getattr(r_, n)) for r_ in (x, y) for n in ("err_ra", "err_dec", "err_peak_flux"))
+                degenerate = degenerate or any(r_.err_peak_flux > abs(r_.peak_flux) for r_ in (x, y))
+                if degenerate:
+                    # a fit without a usable covariance (e.g. a 1-D island of 3 pixels next to a blank block): the position
+                    # across the row is undetermined and the optimiser's end point is arbitrary.  Only sign and flags are
+                    # compared for such rows (whether their error columns are well formed is C03's subject).
+                    res.label("degenerate-fit-row")
+                    if not (np.sign(x.peak_flux) == -np.sign(y.peak_flux) and ((x.flags & ~2) == (y.flags & ~2))):
+                        res.bad("mirror-degenerate-row", "%s: degenerate row at (%.5f, %.5f): peak %r/%r flags %d/%d" % (
+                            what, x.ra, x.dec, x.peak_flux, y.peak_flux, x.flags, y.flags), **tags)
+                        break
+                    continue
             dpos = float(refs.vsep(x.ra, x.dec, y.ra, y.dec))
             epos = math.hypot(getattr(x, "err_ra", 0) if getattr(x, "err_ra", 0) > 0 else 0,
                               getattr(x, "err_dec", 0) if getattr(x, "err_dec", 0) > 0 else 0)
-            if not dpos <= 0.01 * epos + 1e-7:
+            if not dpos <= 0.3 * epos + 1e-7:
                 res.bad("mirror-position", "%s: a source moves by %.3g deg (%.3g reported sigma) when the image is negated" % (
                     what, dpos, dpos / epos if epos else float("inf")), **tags)
                 break
@@ -176,7 +202,7 @@ def check_case(c):
                 for n in ("err_ra", "err_dec", "err_peak_flux", "err_a", "err_b", "err_pa", "err_int_flux", "local_rms", "psf_a", "psf_b"):
                     if n == "err_pa" and x.err_pa > 10 and y.err_pa > 10:
                         continue       # the position angle is undefined (nearly round fit): its error is ill-conditioned
-                    if not close(float(getattr(x, n)), float(getattr(y, n)), 1e-2 if n.startswith("err_") else 1e-6, 1e-12):
+                    if not close(float(getattr(x, n)), float(getattr(y, n)), 0.25 if n.startswith("err_") else 1e-6, 1e-12):
                         badf.append(n)
                 if badf:
                     n = badf[0]
